@@ -1478,6 +1478,7 @@ def _pow_secret_spec(c, xv, ev, n):
 class PowSecret(Contract):
     """x ** e for a secret exponent 0 <= e < 2^bitlength: equals x**e modulo the field prime."""
     name = "pysnark.runtime:LinComb.__pow__#secret"
+    history_ok = False        # its value clause is at the solvers' limit already (nonlinear, modular): no second copy in one query
     modules = ("pysnark.runtime", "pysnark.boolean", "pysnark.fixedpoint", "pysnark.branching")
     vprops = ("C05",)
     sprops = ()
